@@ -230,6 +230,9 @@ def explore_config(cfg: dict) -> dict:
         max_threads[0] = max(max_threads[0], out["threads"])
         if len(samples) < 2:
             samples.append({"choices": choices[:40], "schedule": out["_trace"]})
+        elif any(choices) and not any(samples[1]["choices"]):
+            # prefer a sample that deviates from the default schedule
+            samples[1] = {"choices": choices[:40], "schedule": out["_trace"]}
         bad = judge(cfg, out)
         if bad and len(violations) < 5:
             # replay twice without cache: must reproduce
